@@ -5,6 +5,7 @@ mod gen;
 mod histrec;
 mod ops;
 mod project;
+mod reentry;
 mod structural;
 mod world;
 mod xlsxfaults;
@@ -67,6 +68,8 @@ fn main() {
         "numformat" => cases::numformat(&gets(&m, "in", ""), &gets(&m, "out", "/tmp/icverif")),
         "formula" => formula::run(&gets(&m, "in", ""), &gets(&m, "out", "/tmp/icverif"), getb(&m, "thorough"), geti(&m, "seed", 1) as u64),
         "colattrs" => behreplay::replay_colattrs(&gets(&m, "in", ""), &gets(&m, "out", "/tmp/icverif")),
+        "reentryvocab" => reentry::vocab_size(),
+        "reentry" => reentry::run(&gets(&m, "in", ""), &gets(&m, "out", "/tmp/icverif"), &gets(&m, "pairs", "en/en")),
         "xlsxrt1" => xlsxrt::replay_one(&gets(&m, "in", "")),
         "xlsxrt" => xlsxrt::run(&gets(&m, "out", "/tmp/icverif"), geti(&m, "seed", 1) as u64, geti(&m, "runs", 10) as usize, geti(&m, "steps", 40) as usize, geti(&m, "every", 8) as usize),
         "structural" => structural::replay(&gets(&m, "in", ""), &gets(&m, "out", "/tmp/icverif")),
